@@ -74,6 +74,7 @@ type streamCtl struct {
 	startRead      bool // the initial Last() of SyncChain was let through
 	ambiguousStart bool
 	registered     bool
+	cbRounds       []uint64 // rounds for which the store invoked this stream's callback
 	mu             sync.Mutex
 	free           bool // when set, gates let everything through (used for free-running phases)
 }
@@ -152,6 +153,9 @@ func (g *gatedStore) AddReplaceableCallback(id string, fn beacon.CallbackFunc) f
 	_ = g.s.park("register", 0)
 	remove := g.CallbackStore.AddReplaceableCallback(id, func(b *common.Beacon, closed bool) {
 		if !closed && b != nil {
+			g.s.mu.Lock()
+			g.s.cbRounds = append(g.s.cbRounds, b.Round)
+			g.s.mu.Unlock()
 			_ = g.s.park("callback", b.Round)
 		}
 		fn(b, closed)
